@@ -26,6 +26,8 @@
      parzen_closed_form       the where()/concatenate construction = the pointwise piecewise cubic
      cosine_sum_coefficients  the model's a0..a4 are the table the translator compares with the source
      factory_generator_cases  run_gen returns one of the 24 generators, with tukey's guard
+     factory_returns_generator / factory_window_length   for ANY tables: whatever create_window returns is one
+                              of the 24 generators (so the clauses above apply to it) and has exactly N samples
    In the GENERATED file (re-proved on every run over the tables read from the source):
      table_checks, coefficients_checks, aliases_identical, factory_routes_documented_params,
      factory_rejects_unknown, factory_rejects_unknown_name, window_object_reports.
@@ -112,6 +114,12 @@ Proof. exact (parzen_pointwise I0 cheb N). Qed.
 Theorem factory_generator_cases (g : string) (env : list (string * pval)) (N : nat) (w : list R) :
   @run_gen R r_ops (rT I0 cheb) g env N = WOk w -> exists wg, w = W wg N /\ gen_guard wg.
 Proof. exact (run_gen_cases I0 cheb g env N w). Qed.
+Theorem factory_returns_generator names routes sigs (N : nat) (name : option string) (kw : list (string * pval)) (w : list R) :
+  @create_window R r_ops (rT I0 cheb) names routes sigs N name kw = WOk w -> exists wg, w = W wg N /\ gen_guard wg.
+Proof. exact (factory_returns_generator_thm I0 cheb names routes sigs N name kw w). Qed.
+Theorem factory_window_length names routes sigs (N : nat) (name : option string) (kw : list (string * pval)) (w : list R) :
+  cheb_length_ok cheb -> @create_window R r_ops (rT I0 cheb) names routes sigs N name kw = WOk w -> length w = N.
+Proof. exact (factory_window_length_thm I0 cheb names routes sigs N name kw w). Qed.
 End C20_real.
 
 Section C20_coefficients.
@@ -174,4 +182,6 @@ Print Assumptions hamming_closed_form.
 Print Assumptions bartlett_closed_form.
 Print Assumptions parzen_closed_form.
 Print Assumptions factory_generator_cases.
+Print Assumptions factory_returns_generator.
+Print Assumptions factory_window_length.
 Print Assumptions cosine_sum_coefficients.
